@@ -223,4 +223,5 @@ def run_pass_traces(ctx, name, cases):
                 nv += 1
     ctx.add_suite(name, len(recs), len(recs), time.time() - t0, {"violating_items": nv, "accepted_traces_without_hook_events": nohook})
     if nohook:
-        ctx.notes.append("%s: %d accepted assemblies carried no pass events (hooks missing?)" % (name, nohook))
+        raise tlc.MachineryError("%s: %d of %d accepted assemblies carried no pass events: the binding of AsmPasses to translate_statements is gone "
+                                 "(hooks removed or COCOASM_VERIF not honoured)" % (name, nohook, len(recs)))
